@@ -13,7 +13,7 @@ class Gen:
         self.rng = rng
         self.scalars = list(scalars if scalars is not None else SCALARS_BASIC)
         if multiline:
-            self.scalars += ['p\nq', 'p\nq\nr', 'line1\nline2']
+            self.scalars += ['p\nq', 'p\nq\nr', 'line1\nline2', 'p\nq\n', 'p\r\nq', 'p\rq', 'p\n\nq']
         if bytes_:
             self.scalars += [b'a', b'ab']
         self.keys = list(keys if keys is not None else STR_KEYS)
@@ -145,6 +145,9 @@ class Gen:
             else:
                 s.add(self.hashable(0))
             return s if isinstance(x, set) else frozenset(s)
+        # a multi-line string: change only a line terminator
+        if isinstance(x, str) and '\n' in x and r.random() < 0.5:
+            return r.choice([x + '\n', x.replace('\n', '\r\n', 1), x.replace('\n', '\r', 1), x.replace('\n', '\n\n', 1), x.rstrip('\n') or x + 'z'])
         # scalar: replace, possibly retype
         for _ in range(10):
             y = self.value(1) if r.random() < 0.2 else self.scalar()
